@@ -1097,14 +1097,21 @@ LOOP:
 				if nl >= 0 && l.src[nl] != '\n' {
 					return l.errorf(bomErrorMsg)
 				}
+				comment := l.src[:p]
 				l.src = l.src[p+2:]
-				if nl >= 0 {
-					if endLineAsSemicolon {
-						l.emit(tokenSemicolon, 0)
-						endLineAsSemicolon = false
-					}
-					l.newline()
+				if nl >= 0 && endLineAsSemicolon {
+					l.emit(tokenSemicolon, 0)
+					endLineAsSemicolon = false
 				}
+				l.column += 2
+				for _, c := range comment {
+					if c == '\n' {
+						l.newline()
+					} else if isStartChar(c) {
+						l.column++
+					}
+				}
+				l.column += 2
 				continue LOOP
 			}
 			if len(l.src) > 1 && l.src[1] == '=' {
